@@ -67,6 +67,14 @@ def items(tier):
                                 bound = 1 if (n <= 2 or (tier == "thorough" and n == 3 and r == 1)) else 0
                                 out.append({"case": {"g": g, "kinds": kinds, "pars": pars, "jobs": jobs, "fails": fails,
                                                      "stop_early": stop}, "bound": bound})
+    # one failing task in every 4-task graph, every listing order (shared dependencies reached over paths of different length)
+    for g in rungrid.graphs_upto((4,)):
+        for failing in range(1, 4):
+            for jobs, pars in ((1, [False] * 4), (2, [True] * 4)):
+                for fk in (["exit", 3], ["signal", 9]):
+                    if fk[0] == "signal" and jobs == 2:
+                        continue
+                    out.append({"case": {"g": g, "kinds": ["cmd"] * 4, "pars": pars, "jobs": jobs, "fails": {str(failing): fk}, "stop_early": False}, "bound": 0})
     # default mode: one of several parallel leaves cannot be launched / fails, the others must all still run
     for g in ([[1, 2, 3, 4], [], [], [], []], [[1, 2, 3, 4, 5], [], [], [], [], []]):
         n = len(g)
